@@ -104,6 +104,10 @@ pub fn gen_ws_conn(r: &mut Rng, nonce: &mut u64, port: u16, allow_faults: bool, 
         let fits = (c.s2c.cap as u64).saturating_mul(20_000 / c.s2c.lat_max.max(1)).min(1 << 20) as usize;
         glen = r.usize_in(1, want).min(fits.max(1));
     }
+    // a third of the handlers on plain TCP return without shutdown(): what
+    // they wrote was accepted by the socket and must still arrive (over TLS
+    // the session buffer makes a final flush or shutdown the handler's job)
+    let no_shutdown = !tls && r.chance(1, 3);
     let key = gen_key(r);
     // which elements are broken (bit set = broken)
     // (half of the invalid handshakes lack exactly one element, so that no
@@ -119,7 +123,7 @@ pub fn gen_ws_conn(r: &mut Rng, nonce: &mut u64, port: u16, allow_faults: bool, 
     let mut tab = false;
     let mut headers: Vec<(String, Vec<u8>)> = vec![
         hdr("host", "sim"),
-        hdr("x-sim", &format!("{};0;0;0;{};{}", my, glen, (if block_mode { 2 } else { 0 }) | (if flush_mode { 4 } else { 0 }))),
+        hdr("x-sim", &format!("{};0;0;0;{};{}", my, glen, (if block_mode { 2 } else { 0 }) | (if flush_mode { 4 } else { 0 }) | (if no_shutdown { 8 } else { 0 }))),
     ];
     // Connection
     if broken & 1 == 0 {
